@@ -17,13 +17,23 @@ def parseRec? (s : String) : Option (Option DeployStatus) :=
   else if s == "failed" then some (some .failed)
   else none
 
+/-- does `VerifyAgainstTX` of this kind of message read the valset? -/
+def parseKind? (s : String) : Option Bool :=
+  if s == "slc" || s == "uv" || s == "usc" || s == "ch" then some true
+  else if s == "up" then some false
+  else none
+
 /-- `block <height> <txs>`: the model's prediction for every block is "ok": begin/end-block processing is total
     (Props/C09.lean); the harness reports "aborted" when FinalizeBlock errs or panics.
     `endblock metrix <height> <nonce cache|-> <ids of validator 1> <ids of validator 2> …`: the relay-history part of the
     metrix end blocker (`Metrix.endBlock`) → `returned <ids> <ids> …` | `aborted`.
     `relay <height> <assigned> <handled> <id> <nonce cache|-> <ids>`: `OnConsensusMessageAttested` → `<cache> <ids>`.
     `attestch <none|inflight|waiting|failed>`: a compass handover is attested while its deployment record is in that state
-    → `activated` | `skipped` (the block goes on either way; `aborted` is never predicted). -/
+    → `activated` | `skipped` (the block goes on either way; `aborted` is never predicted).
+    `attestref <slc|uv|usc|ch|up> <valset id of the public access data|-> <ids of the existing snapshots> <valset id the
+    reported transaction was built with (0 = the empty valset)|->`: the integrity check of the attestation
+    (`Dangling.attestIntegrity`) → `verified` | `notverified` | `aborted` (a panic; never predicted, see
+    `attest_integrity_never_panics`). -/
 def step (args : List String) : String :=
   match args with
   | ["block", _, _] => "ok"
@@ -44,5 +54,13 @@ def step (args : List String) : String :=
     match parseRec? r with
     | some rec => if (activate rec).isSome then "activated" else "skipped"
     | none => "bad-op"
+  | ["attestref", k, p, sn, b] =>
+    match parseKind? k, parseCache? p, Driver.parseNatList? sn, parseCache? b with
+    | some usesValset, some pad, some snaps, some builtFor =>
+      match Dangling.attestIntegrity usesValset pad snaps builtFor with
+      | .verified => "verified"
+      | .notVerified => "notverified"
+      | .panic => "aborted"
+    | _, _, _, _ => "bad-op"
   | _ => "bad-op"
 end Driver.C09
